@@ -290,3 +290,74 @@ package astisub
 //@   loop 2: invariant forall a int :: a != old(arr(s.Items)) ==> sameElems(a, *Item)
 //@   loop 2: decreases len(s.Items) - j
 //@ end
+
+// ---------------------------------------------------------------------------
+// C10  (*Subtitles).Fragment
+// ---------------------------------------------------------------------------
+
+//@ pred opaque fitsFragment(st time.Duration, en time.Duration, f time.Duration) = en <= (st / f + 1) * f
+//@ pred noMultipleInside(it *Item, f time.Duration) = fitsFragment(it.StartAt, it.EndAt, f)
+//@ pred opaque onList(xs []*Item, t time.Duration, x string) = exists k int :: 0 <= k && k < len(xs) && txt(xs[k]) == x && xs[k].StartAt <= t && t < xs[k].EndAt
+//@ pred opaque onScreenBelow(s *Subtitles, n int, t time.Duration, x string) = exists k int :: 0 <= k && k < n && txt(s.Items[k]) == x && s.Items[k].StartAt <= t && t < s.Items[k].EndAt
+//@ pred opaque multipleOf(x time.Duration, f time.Duration) = x % f == 0
+//@ pred copyOf(p *Item, q *Item) = p.Style == q.Style && p.Region == q.Region && p.InlineStyle == q.InlineStyle && p.Lines == q.Lines && p.Index == q.Index && p.Comments == q.Comments
+//@ pred fragmentable(s *Subtitles) = forall k int :: 0 <= k && k < len(s.Items) ==> 0 <= s.Items[k].StartAt && s.Items[k].StartAt <= s.Items[k].EndAt && s.Items[k].EndAt <= 2305843009213693952
+
+//@ func (s *Subtitles) Fragment(f time.Duration)
+//@   prop C10
+//@   requires wfItems(s) && fragmentable(s) && byStart(s) && 0 < f && f <= 2305843009213693952
+//@   ghostfun opaque O(k int) *Item = old(s.Items[k])
+//@   ghostfun opaque E0(k int) time.Duration = old(s.Items[k].EndAt)
+//@   ghostfun opaque S0(k int) time.Duration = old(s.Items[k].StartAt)
+//@   lemma oFacts(k int) : 0 <= k && k < old(len(s.Items)) ==> O(k) != nil && 0 <= S0(k) && S0(k) <= E0(k) && E0(k) <= 2305843009213693952 && preexisting(O(k))
+//@   lemma oDistinct(a int, b int) : 0 <= a && a < b && b < old(len(s.Items)) ==> O(a) != O(b)
+//@   lemma manual pure multQ(q int) : 0 <= q ==> multipleOf(q * f, f)
+//@   lemma manual pure fits(x time.Duration, e time.Duration, q int) : 1 <= q && (q - 1) * f <= x && x < q * f && e <= q * f ==> fitsFragment(x, e, f)
+//@   lemma manual pure nextQ(x time.Duration) : 0 <= x ==> (x / f) * f <= x && x < (x / f + 1) * f && 0 <= x / f
+//@   ensures [no-multiple-inside] forall m int :: 0 <= m && m < len(s.Items) ==> noMultipleInside(s.Items[m], f)
+//@   ensures [sorted] byStart(s)
+//@   ensures [timeline] forall t time.Duration, x string :: onScreenBelow(s, len(s.Items), t, x) <==> old(onScreenBelow(s, len(s.Items), t, x))
+//@   ensures [wf] nonNil(s)
+//@   ensures [pieces] forall m int :: 0 <= m && m < len(s.Items) ==> exists k int :: 0 <= k && k < old(len(s.Items)) && copyOf(s.Items[m], O(k)) && S0(k) <= s.Items[m].StartAt && s.Items[m].StartAt <= s.Items[m].EndAt && s.Items[m].EndAt <= E0(k) && (s.Items[m].StartAt < s.Items[m].EndAt || (s.Items[m].StartAt == S0(k) && s.Items[m].EndAt == E0(k))) && (s.Items[m].StartAt == S0(k) || multipleOf(s.Items[m].StartAt, f)) && (s.Items[m].EndAt == E0(k) || multipleOf(s.Items[m].EndAt, f))
+//@   ensures [originals-kept] forall k int :: 0 <= k && k < old(len(s.Items)) ==> exists m int :: 0 <= m && m < len(s.Items) && s.Items[m] == O(k)
+//@   assigns s.Items, elemsof(*Item), Item.StartAt, Item.EndAt, Item.Comments, Item.Index, Item.InlineStyle, Item.Lines, Item.Region, Item.Style
+//@   loop 1: invariant (len(items) == 0 && arr(items) == 0 && cap(items) == 0) || fresh(items)
+//@   loop 1: invariant forall m int :: 0 <= m && m < len(items) ==> items[m] != nil && 0 <= items[m].StartAt && noMultipleInside(items[m], f)
+//@   loop 1: invariant forall m int :: 0 <= m && m < len(items) ==> fresh(items[m]) || (exists k int :: 0 <= k && k < $k1 && items[m] == O(k))
+//@   loop 1: ghost srcOf intmap = emptymap() ; at_end mapstore(srcOf, len(items) - 1, $k1)
+//@   loop 1: ghost posOf intmap = emptymap() ; at_end mapstore(posOf, $k1, len(items) - 1)
+//@   loop 1: invariant forall m int :: 0 <= m && m < len(items) ==> 0 <= mapsel(srcOf, m) && mapsel(srcOf, m) < $k1
+//@   loop 1: invariant forall m int :: 0 <= m && m < len(items) ==> copyOf(items[m], O(mapsel(srcOf, m)))
+//@   loop 1: invariant forall m int :: 0 <= m && m < len(items) ==> S0(mapsel(srcOf, m)) <= items[m].StartAt && items[m].StartAt <= items[m].EndAt && items[m].EndAt <= E0(mapsel(srcOf, m))
+//@   loop 1: invariant forall m int :: 0 <= m && m < len(items) ==> items[m].StartAt < items[m].EndAt || (items[m].StartAt == S0(mapsel(srcOf, m)) && items[m].EndAt == E0(mapsel(srcOf, m)))
+//@   loop 1: invariant forall m int :: 0 <= m && m < len(items) ==> (items[m].StartAt == S0(mapsel(srcOf, m)) || multipleOf(items[m].StartAt, f)) && (items[m].EndAt == E0(mapsel(srcOf, m)) || multipleOf(items[m].EndAt, f))
+//@   loop 1: invariant forall k int :: 0 <= k && k < $k1 ==> 0 <= mapsel(posOf, k) && mapsel(posOf, k) < len(items) && items[mapsel(posOf, k)] == O(k)
+//@   loop 1: invariant forall k int :: $k1 <= k && k < old(len(s.Items)) ==> O(k).StartAt == S0(k) && O(k).EndAt == E0(k)
+//@   loop 1: invariant forall t time.Duration, x string :: onList(items, t, x) <==> old(onScreenBelow(s, $k1, t, x))
+//@   loop 2: invariant (len(items) == 0 && arr(items) == 0 && cap(items) == 0) || fresh(items)
+//@   loop 2: invariant forall m int :: 0 <= m && m < len(items) ==> items[m] != nil && 0 <= items[m].StartAt && noMultipleInside(items[m], f)
+//@   loop 2: invariant forall m int :: 0 <= m && m < len(items) ==> fresh(items[m]) || (exists k int :: 0 <= k && k < $k1 && items[m] == O(k))
+//@   loop 2: ghost srcOf intmap = srcOf ; at_end mapstore(srcOf, len(items) - 1, $k1)
+//@   loop 2: invariant forall m int :: 0 <= m && m < len(items) ==> 0 <= mapsel(srcOf, m) && mapsel(srcOf, m) <= $k1
+//@   loop 2: invariant forall m int :: 0 <= m && m < len(items) ==> copyOf(items[m], O(mapsel(srcOf, m)))
+//@   loop 2: invariant forall m int :: 0 <= m && m < len(items) ==> S0(mapsel(srcOf, m)) <= items[m].StartAt && items[m].StartAt <= items[m].EndAt && items[m].EndAt <= E0(mapsel(srcOf, m))
+//@   loop 2: invariant forall m int :: 0 <= m && m < len(items) ==> items[m].StartAt < items[m].EndAt || (items[m].StartAt == S0(mapsel(srcOf, m)) && items[m].EndAt == E0(mapsel(srcOf, m)))
+//@   loop 2: invariant forall m int :: 0 <= m && m < len(items) ==> (items[m].StartAt == S0(mapsel(srcOf, m)) || multipleOf(items[m].StartAt, f)) && (items[m].EndAt == E0(mapsel(srcOf, m)) || multipleOf(items[m].EndAt, f))
+//@   loop 2: invariant forall k int :: 0 <= k && k < $k1 ==> 0 <= mapsel(posOf, k) && mapsel(posOf, k) < len(items) && items[mapsel(posOf, k)] == O(k)
+//@   loop 2: invariant sub.StartAt == S0($k1) || multipleOf(sub.StartAt, f)
+//@   loop 2: invariant sub.StartAt == S0($k1) || sub.StartAt < sub.EndAt
+//@   loop 2: invariant forall m int :: 0 <= m && m < len(items) ==> items[m] != sub
+//@   loop 2: ghost q int = sub.StartAt / f + 1 ; at_end q + 1
+//@   loop 2: invariant multipleOf(boundary, f) && 0 <= boundary
+//@   loop 2: invariant 1 <= q && boundary == q * f && (q - 1) * f <= sub.StartAt && sub.StartAt < boundary
+//@   loop 2: use entry nextQ(sub.StartAt)
+//@   loop 2: use entry multQ(sub.StartAt / f + 1)
+//@   loop 2: use step multQ(q)
+//@   loop 2: use step fits(items[len(items)-1].StartAt, items[len(items)-1].EndAt, q - 1)
+//@   loop 1: use step fits(items[len(items)-1].StartAt, items[len(items)-1].EndAt, q)
+//@   loop 2: invariant forall k int :: $k1 < k && k < old(len(s.Items)) ==> O(k).StartAt == S0(k) && O(k).EndAt == E0(k)
+//@   loop 2: invariant sub == O($k1) && sub.EndAt == E0($k1) && S0($k1) <= sub.StartAt && sub.StartAt <= sub.EndAt && sub.StartAt <= 2305843009213693952
+//@   loop 2: invariant forall t time.Duration, x string :: onList(items, t, x) ==> old(onScreenBelow(s, $k1 + 1, t, x))
+//@   loop 2: invariant forall t time.Duration, x string :: txt(sub) == x && sub.StartAt <= t && t < sub.EndAt ==> old(onScreenBelow(s, $k1 + 1, t, x))
+//@   loop 2: invariant forall t time.Duration, x string :: old(onScreenBelow(s, $k1 + 1, t, x)) ==> onList(items, t, x) || (txt(sub) == x && sub.StartAt <= t && t < sub.EndAt)
+//@ end
